@@ -91,7 +91,7 @@ func init() {
 			}
 			rounds := Pick(c, 1, 2, 3, c.Range(1, 10), c.Range(1, maxRounds))
 			cp := ClientPlan{Form: form, HTTP: 2, Service: "sim", Method: "Bidi", Codec: Pick(c, "proto", "json", "alt"), Compression: Pick(c, "", "gzip", "deflate"),
-				Accept: genSubset(c, allCompressions, false), PingPong: true, RW: Pick(c, "", "", "flusherr", "unwrap")}
+				Accept: genSubset(c, allCompressions, false), PingPong: true, RW: Pick(c, "", "", "flusherr", "unwrap", "buffering")}
 			sch := getSchema("sim")
 			md := sch.method("Bidi")
 			big := c.Prob(0.1)
